@@ -27,7 +27,10 @@ RULE = ("gate enumeration on valid generated inputs: exhaustive single-bit flips
         "unsupported versions (0,1,4,5,16,2^31,2^32-1 …), cluster_bits 0..8 and 22.., crypt methods, every unknown incompatible "
         "feature bit 5..63, data-file / extended-L2 / zstd flags without support, missing backing argument, missing VHDX regions, "
         "foreign parent-locator type, unsupported Parallels image type, missing DiskDescriptor.xml, keystore modes, key-safe "
-        "identifiers / locator kinds / cipher / MAC / KDF names. Every case must raise at open (`E`); only raised-vs-returned is "
+        "identifiers / locator kinds / cipher / MAC / KDF names (also on the first pair of a 2..4-pair list unlocked with the LAST pair's "
+        "passphrase), key-safe lists that mix supported phrase pairs with a member that is / wraps / contains a locator of an unsupported kind "
+        "(rawkey, fqid, ldap, script, role, unknown identifiers, respelled Phrase / PAIR / List; as bare member, pair locator, list inside a "
+        "pair, pair inside a pair, nested list; first / middle / last; unlocked with the passphrase of an intact pair). Every case must raise at open (`E`); only raised-vs-returned is "
         "compared, three ways: real code vs expectation vs the Lean model of that parser (Vdi/Hds/Qcow2/Vhdx/Vmdk opens, HyperV.asDict, "
         "Envelope.openEnv / keystore, Vmx.unlock over the primitive table, HddOpen.open over the parsed element tree). Each non-disk family "
         "also carries its unmutated input (`base_ok`), which must be accepted by code and model alike. Non-trivial = every case (each "
@@ -193,6 +196,38 @@ def generate(seed, tier):
         for gate in ["identifier", "locator_rawkey", "locator_ldap", "locator_script", "cipher_AES-512", "cipher_DES", "mac_HMAC-MD5", "mac_HMAC-SHA-512",
                      "kdf_PBKDF2-HMAC-MD5", "kdf_scrypt", "not_a_list"]:
             add("vmx", rm, gate, [])
+        # ---------------- vmx key safe, several members: the passphrase belongs to a LATER pair than the one that carries the
+        # unsupported name, so the refusal cannot come from "nothing opens" (the untouched list opens: base_ok)
+        while True:
+            rm2 = gen_vmx.gen_recipe(rng, "quick", npairs=rng.choice([2, 3, 4]))
+            rm2["pos"] = len(rm2["pairs"]) - 1
+            try:
+                for gate in vmx_gates:
+                    vmx_mutated(rm2, gate)
+                break
+            except HarnessError:
+                continue
+        add("vmx", rm2, "base_ok", [], {"expect_ok": True})
+        for gate in vmx_gates:
+            add("vmx", rm2, gate, [])
+        # ---------------- vmx key safe: lists that MIX supported phrase pairs with a member that is, wraps or contains a key locator
+        # of an unsupported kind (written by gen_vmx.foreign_member): first / middle / last, before and after the pair that would open
+        k = 0
+        for kind in gen_vmx.FOREIGN_KINDS:
+            for shape in gen_vmx.FOREIGN_SHAPES:
+                n = rng.choice([1, 2, 3, 3])
+                rx = gen_vmx.gen_recipe(rng, "quick", npairs=n, pos=rng.randrange(n))
+                at = [0, n, rng.randrange(1, n) if n > 1 else 0][(k + k // 6) % 3]
+                rx["foreign"] = [gen_vmx.gen_foreign(rng, kind, shape, at)]
+                where = "first" if at == 0 else "last" if at == n else "middle"
+                if k % 10 == 0:
+                    add("vmx", {kk: v for kk, v in rx.items() if kk != "foreign"}, "base_ok", [], {"expect_ok": True})
+                add("vmx", rx, f"mixed_{kind}_{shape}_{where}", [])
+                k += 1
+        for n, ats in [(2, [0, 1, 2]), (3, [0, 3]), (3, [1, 2])]:           # several foreign members around the supported pairs
+            rx = gen_vmx.gen_recipe(rng, "quick", npairs=n)
+            rx["foreign"] = [gen_vmx.gen_foreign(rng, rng.choice(gen_vmx.FOREIGN_KINDS[:7]), rng.choice(gen_vmx.FOREIGN_SHAPES), a) for a in ats]
+            add("vmx", rx, "mixed_several_" + "".join(map(str, ats)), [])
     return cases
 
 
@@ -518,7 +553,9 @@ def vmx_mutated(r, gate):
     if not m or not m.group(2).startswith("vmware:key/list/"):
         raise HarnessError("key safe not found")
     ks = m.group(2)
-    if gate == "base_ok":
+    if gate == "base_ok" or gate.startswith("mixed_"):
+        if (gate == "base_ok") == bool(b["foreign"]):
+            raise HarnessError("a mixed_ gate needs a recipe with foreign members, base_ok one without")
         ks2 = ks
     elif gate == "identifier":
         ks2 = ks.replace("vmware:key", "vmware:kez", 1)
@@ -546,7 +583,7 @@ def vmx_mutated(r, gate):
             mm = re.search(re.escape(key) + r"(?:%3d|%3D|=)([A-Za-z0-9%\-]+?)(?=(%3a|%3A|:|,|/|\)|$))", ks[:c1 + 1])
             if mm:
                 ks2 = ks[:mm.start(1)] + val + ks[mm.end(1):]
-    if ks2 is None or (ks2 == ks and gate != "base_ok"):
+    if ks2 is None or (ks2 == ks and gate != "base_ok" and not gate.startswith("mixed_")):
         raise HarnessError("gate not applicable to this encoding")
     return text[:m.start(2)] + ks2 + text[m.end(2):], b["passphrase"]
 
